@@ -272,7 +272,11 @@ def inherit(ctx, vb):
         okty = False
         if pf is not None:
             ex_ = [strip(x_['expr']) for x_ in pf.exits()]
-            okty = len(ex_) == 1 and ex_[0][0] == 'call' and bool(re.search(r'::ne$', ex_[0][1])) and FUNCTION in ex_[0][4] and not pf.switches()
+            neg_ = False
+            # `!(b == d)` is `b != d`
+            while len(ex_) == 1 and ex_[0][0] == 'un' and ex_[0][1] == 'Not':
+                ex_, neg_ = [strip(ex_[0][2])], not neg_
+            okty = len(ex_) == 1 and ex_[0][0] == 'call' and bool(re.search(r'::eq$' if neg_ else r'::ne$', ex_[0][1])) and FUNCTION in ex_[0][4] and not pf.switches()
         okn = bool(zipped and sides and okty)
         det = 'search form %s over %s' % (short(X[1]), show(it)[:120])
         gne = [g]
